@@ -473,7 +473,7 @@ META = {
     "explanation": "The two halves of the property (matcher semantics over all pattern/string pairs; JSON round-trip equality) are statements about "
                    "values and are not decided. Decided: the wildcard alphabet and data independence of the matcher, refusal of empty patterns and "
                    "completeness of the set, the exists-structure of is_match, guardedness of every cursor advance and index in the matcher, "
-                   "wire-shape agreement of the hand-written serde impls, and a whitelist of serde attributes in the policy model.",
+                   "wire-shape agreement of the hand-written serde impls, and a whitelist of serde attributes in the policy model. Round 4: every function of the pattern module that singles out one wildcard byte singles out both (R1).",
     "not_decided": ["matcher semantics (backtracking correctness)", "JSON round-trip equality"],
     "assumptions": ["rustc nightly MIR construction", "serde derive semantics for the whitelisted attributes"],
 }
